@@ -52,6 +52,11 @@ def dnf(node):
             sub = dnf(v)
             res = [a + b for a in res for b in sub]
         return res
+    # (a.x, a.y) == (b.x, b.y)  is  a.x == b.x and a.y == b.y
+    if isinstance(node, ast.Compare) and len(node.ops) == 1 and isinstance(node.ops[0], ast.Eq) and isinstance(node.left, (ast.Tuple, ast.List)) \
+            and isinstance(node.comparators[0], (ast.Tuple, ast.List)) and len(node.left.elts) == len(node.comparators[0].elts) and node.left.elts:
+        return [[ast.copy_location(ast.Compare(left=l, ops=[ast.Eq()], comparators=[r]), node)
+                 for l, r in zip(node.left.elts, node.comparators[0].elts)]]
     return [[node]]
 
 
